@@ -9,12 +9,14 @@ import (
 	"fmt"
 	"hash/fnv"
 	"os"
+	"runtime"
 	"runtime/debug"
 	"sort"
 	"strconv"
 	"strings"
 	"sync"
 	"testing"
+	"time"
 
 	"pgregory.net/rapid"
 )
@@ -206,18 +208,55 @@ func Run[C any](t *testing.T, id string, gen func(*rapid.T) *C, check func(*C, *
 		if err != nil {
 			shrinking = true
 			recordFail(id, c, err.Error())
+			if m := err.Error(); strings.HasPrefix(m, "WATCHDOG") || strings.HasPrefix(m, "hang:") {
+				// a hung goroutine cannot be killed and keeps burning CPU: report the case as it is
+				// (unshrunk) and leave the process instead of shrinking through more hangs
+				Flush()
+				fmt.Printf("--- FAIL: %s (hang; case saved unshrunk)\n%s\n", id, m)
+				os.Exit(1)
+			}
 			rt.Fatalf("%s: %v", id, err)
 		}
 	})
 }
 
-func safeCheck[C any](check func(*C, *Obs) error, c *C, o *Obs) (err error) {
-	defer func() {
-		if r := recover(); r != nil {
-			err = fmt.Errorf("panic: %v\n%s", r, debug.Stack())
+// caseTimeout is a last-resort watchdog around every case (checks that are about hangs have
+// their own, with confirmation). Cases take milliseconds to seconds; the default is 300 s.
+func caseTimeout() time.Duration {
+	if v := os.Getenv("VERIF_CASE_TIMEOUT_S"); v != "" {
+		if n, err := strconv.Atoi(v); err == nil && n > 0 {
+			return time.Duration(n) * time.Second
 		}
+	}
+	return 300 * time.Second
+}
+
+func safeCheck[C any](check func(*C, *Obs) error, c *C, o *Obs) error {
+	type res struct {
+		err error
+		o   Obs
+	}
+	ch := make(chan res, 1)
+	go func() {
+		var lo Obs
+		var err error
+		defer func() {
+			if r := recover(); r != nil {
+				err = fmt.Errorf("panic: %v\n%s", r, debug.Stack())
+			}
+			ch <- res{err, lo}
+		}()
+		err = check(c, &lo)
 	}()
-	return check(c, o)
+	select {
+	case r := <-ch:
+		*o = r.o
+		return r.err
+	case <-time.After(caseTimeout()):
+		buf := make([]byte, 1<<16)
+		n := runtime.Stack(buf, true)
+		return fmt.Errorf("WATCHDOG: the case did not finish within %v (hang?)\n%s", caseTimeout(), buf[:n])
+	}
 }
 
 func recordFail(id string, c any, msg string) {
